@@ -54,6 +54,10 @@ func (bigRatEncoder) Write(enc *Encoder, v interface{}) {
 
 // WriteBigFloat to encoder.
 func (enc *Encoder) WriteBigFloat(f *big.Float) {
+	if f == nil {
+		enc.WriteNil()
+		return
+	}
 	enc.buf = append(enc.buf, TagDouble)
 	enc.buf = f.Append(enc.buf, 'g', -1)
 	enc.buf = append(enc.buf, TagSemicolon)
@@ -61,6 +65,10 @@ func (enc *Encoder) WriteBigFloat(f *big.Float) {
 
 // WriteBigInt to encoder.
 func (enc *Encoder) WriteBigInt(i *big.Int) {
+	if i == nil {
+		enc.WriteNil()
+		return
+	}
 	enc.buf = append(enc.buf, TagLong)
 	enc.buf = append(enc.buf, i.String()...)
 	enc.buf = append(enc.buf, TagSemicolon)
@@ -68,6 +76,10 @@ func (enc *Encoder) WriteBigInt(i *big.Int) {
 
 // WriteBigRat to encoder.
 func (enc *Encoder) WriteBigRat(r *big.Rat) {
+	if r == nil {
+		enc.WriteNil()
+		return
+	}
 	if r.IsInt() {
 		enc.WriteBigInt(r.Num())
 	} else {
